@@ -173,6 +173,42 @@ def nanfree(a):
     return a == a
 
 
+def run_clear_retrain(ctx: Ctx):
+    """a component trained with failing evaluations, cleared, and trained again without failures: nothing of the first life - failure records,
+    imputed values, stored data - may survive into the second; it must equal a fresh failure-free component"""
+    rng = ctx.rng
+    for n in range(ctx.pick(3, 12)):
+        seed = ctx.seed * 57 + n; kind = ['raise', 'nan'][n % 2]; nsteps = rng.randint(4, 6)
+        fresh = run_history(seed, 'serial', set(), 'nan', nsteps)
+        total = len(fresh['log'])
+        if total < 3:
+            continue
+        fail_at = set(rng.sample(range(2, total + 1), min(total - 1, rng.randint(1, 3))))
+        log = []
+        comp, nx, na, levels, value, prof_of = make_component(seed, 'serial', fail_at, kind, log)
+        case = {'clear_and_retrain': n, 'system_seed': seed, 'first_life_failures': sorted(fail_at), 'kind': kind}
+        ctx.case(case, nontrivial=True, kind=f'clear-retrain:{kind}')
+        try:
+            for c in fresh['order']:                       # first life: the same history, with failures
+                comp.activate_index(tuple(c[:na]), tuple(c[na:]))
+            nerr1 = sum(len(d) for d in comp.training_data.error_map.values())
+            comp.clear()
+            for c in fresh['order']:                       # second life: the evaluation counter is past every failing position
+                comp.activate_index(tuple(c[:na]), tuple(c[na:]))
+        except Exception as e:
+            ctx.violate('C14:training-raises', f'clear and retrain: {type(e).__name__}: {e}', case); continue
+        td = comp.training_data
+        errors = sorted((tuple(a), tuple(c)) for a, d in td.error_map.items() for c in d)
+        imputed = sorted((tuple(a), tuple(c)) for a, d in td.yi_nan_map.items() for c in d)
+        stored = {(tuple(a), tuple(c)): (float(yi['p']), float(yi['q'])) for a, d in td.yi_map.items() for c, yi in d.items()}
+        if errors or imputed:
+            ctx.violate('C14:failure-records-survive-clear', f'after clear() and a failure-free retraining the component lists failures at {errors} and imputed values at '
+                        f'{imputed} (the first life had {nerr1} failure record(s))', case); continue
+        if stored != fresh['stored']:
+            bad = [k for k in fresh['stored'] if stored.get(k) != fresh['stored'][k]][:3]
+            ctx.violate('C14:other-data-changed', f'after clear() and retraining, stored outputs differ from a fresh failure-free component at {bad}', case)
+
+
 def run(ctx: Ctx):
     import_amisc()
     rng = ctx.rng
@@ -182,6 +218,7 @@ def run(ctx: Ctx):
                 'completion order); compared with the failure-free run: index sets and weights, every stored output that did not fail (incl. the other '
                 'output at a NaN point), error records = exactly the failed (fidelity, point), imputed values only where a value (entry) is missing, the data handed out by get_training_data, the '
                 'content of error records (fidelity, inputs), the cost accounts, finite predictions; the error re-basing is also run through Model/Fault.v; non-trivial = a failing position other than the first')
+    run_clear_retrain(ctx)
     lines, meta = [], []
     for n in range(ctx.pick(6, 30)):
         seed = ctx.seed * 31 + n
